@@ -689,6 +689,20 @@ func (r *run) execute() (err error) {
 		}
 	}
 
+	// --- transient faults queued for the accept / read step
+	for _, k := range s.TempErrs {
+		r.injectFault(k)
+	}
+	if s.TempErrAt != "" {
+		r.wg.Add(1)
+		go func() {
+			defer r.wg.Done()
+			if r.log.WaitAny(2*watchdogFull, s.TempErrAt, "shutdown.call", "teardown") == 0 {
+				r.injectFault("tempNotTimeout")
+			}
+		}()
+	}
+
 	// --- start
 	serveDone := make(chan struct{})
 	go func() {
@@ -1070,6 +1084,35 @@ func (r *run) invariants() error {
 	return nil
 }
 
+// faultError builds the injected error of a fault kind.
+func faultError(kind string) *memnet.NetError {
+	switch kind {
+	case "tempTimeout":
+		return &memnet.NetError{Msg: "injected: temporary timeout", IsTimeout: true, IsTemporary: true}
+	case "tempNotTimeout": // like EMFILE / ENFILE / ECONNABORTED from accept(2)
+		return &memnet.NetError{Msg: "injected: temporary, not a timeout", IsTemporary: true}
+	case "timeoutNotTemporary":
+		return &memnet.NetError{Msg: "injected: timeout that is not temporary", IsTimeout: true}
+	}
+	return &memnet.NetError{Msg: "injected: permanent failure"}
+}
+
+// injectFault makes the next accept / datagram read of the current transport fail once.
+func (r *run) injectFault(kind string) {
+	e := faultError(kind)
+	switch {
+	case r.lis != nil:
+		r.lis.InjectAcceptError(e)
+	case r.spy != nil:
+		r.spy.InjectAcceptError(e)
+	case r.pc != nil:
+		r.pc.InjectReadError(e)
+	default:
+		return
+	}
+	r.log.Add("fault.injected(" + kind + ")")
+}
+
 // failedStart makes one start attempt that must fail, checks that it returns an error instead of
 // blocking, that a following Shutdown returns at once (the "server not started" error when the
 // server never began to serve), and leaves the Server value ready for the real start.
@@ -1079,6 +1122,7 @@ func (r *run) failedStart(kind string) error {
 	srv.Listener, srv.PacketConn = nil, nil
 	srv.NotifyStartedFunc = func() { r.log.Add("failedstart.serving") }
 	var holder interface{ Close() error }
+	var injected *memnet.NetError
 	listen := false
 	switch kind {
 	case "closedUDP":
@@ -1103,6 +1147,16 @@ func (r *run) failedStart(kind string) error {
 		}
 		l.Close()
 		srv.Listener = l
+	case "permanentAcceptErr", "timeoutNotTemporaryAccept": // a healthy listener whose first Accept fails for good
+		l := memnet.NewListener(nil, "")
+		injected = faultError(strings.TrimSuffix(strings.TrimSuffix(kind, "Accept"), "AcceptErr"))
+		l.InjectAcceptError(injected)
+		srv.Listener = l
+	case "permanentReadErr", "timeoutNotTemporaryRead":
+		pc := memnet.NewPacketConn(nil, "", memnet.UDPAddr(53))
+		injected = faultError(strings.TrimSuffix(strings.TrimSuffix(kind, "Read"), "ReadErr"))
+		pc.InjectReadError(injected)
+		srv.PacketConn = pc
 	case "nilListeners":
 	case "badAddrTCP":
 		listen, srv.Net, srv.Addr = true, "tcp", "127.0.0.1:99999"
@@ -1147,6 +1201,9 @@ func (r *run) failedStart(kind string) error {
 	r.log.Add("misuse.failedStart.return(" + errTag(startErr) + ")")
 	if startErr == nil {
 		return r.fail("I5: start with %s returned nil", kind)
+	}
+	if injected != nil && startErr != error(injected) {
+		return r.fail("I4: the serve call hit the non-temporary error %q at its first accept/read but returned %v", injected.Msg, startErr)
 	}
 	served := r.log.Has("failedstart.serving")
 	if !within(watchdog(), func() { sdErr = srv.Shutdown() }) {
@@ -1426,6 +1483,11 @@ func (r *run) classes() []string {
 	}
 	if len(s.Waits) > 0 {
 		cl = append(cl, "with-plan")
+	}
+	for _, n := range names {
+		if strings.HasPrefix(n, "fault.injected(") {
+			cl = append(cl, "transient-"+strings.TrimPrefix(n, "fault.injected"))
+		}
 	}
 	if late {
 		cl = append(cl, "reply-written-after-shutdown-call")
